@@ -53,6 +53,7 @@ type vfC11World struct {
 	grp    string
 	last   []byte // token found in the most recent reply
 	lastNeedsValidation bool
+	lastFrom            string
 	self   string // user id of the session as the model knows it
 }
 
@@ -201,6 +202,7 @@ func vfC11Exec(hist []int, last bool) vfXResult {
 		}
 		if op.Arg == "tok-last" && x.last == nil {
 			x.last = []byte("none")
+			x.lastFrom = "fake"
 		}
 		code, frames := c.Req(x.request(op))
 		lastWasCarol := false
@@ -208,6 +210,7 @@ func vfC11Exec(hist []int, last bool) vfXResult {
 			if f.Msg.Ctrl != nil {
 				if p, okP := f.Msg.Ctrl.Params.(map[string]any); okP {
 					if tk, okT := p["token"]; okT {
+						x.lastFrom = op.Arg
 						if b, okB := tk.([]byte); okB {
 							x.last = b
 							lastWasCarol = code == 300
@@ -431,7 +434,7 @@ func vfC11Exec(hist []int, last bool) vfXResult {
 			}
 		}
 	}
-	res.Key = fmt.Sprintf("%+v att=%s msgs=%d users=%d", m, att, len(x.w.db.Messages(x.grp)), len(x.w.db.Users()))
+	res.Key = fmt.Sprintf("%+v att=%s msgs=%d users=%d lasttoken=%s/%v", m, att, len(x.w.db.Messages(x.grp)), len(x.w.db.Users()), x.lastFrom, x.lastNeedsValidation)
 	return res
 }
 
